@@ -23,10 +23,13 @@
     codec_roundtrip_thm, stale_seed_invalid_thm — restated below); a fresh seed
     differs from all earlier ones ([fresh] guard); a successful Sync makes every
     write issued before its call durable; sector writes are atomic; rename is
-    durable after the directory fsync; same geometry across restarts. *)
+    durable after the directory fsync; same geometry across restarts.
+    Repeated crashes (arbitrarily many lives): [repeated_crash], [repeated_crash_bytes],
+    [no_overwrite_after_restart], [safe_medium_closed] below (Persist/CrashRepeat*.v). *)
 From Coq Require Import List NArith ZArith Bool Arith Lia.
 From BBS Require Import Common.Sx Persist.PBL Persist.Syncer Persist.Crash Persist.CrashLts
   Persist.CrashEpochProofs Persist.CrashAllocProofs Persist.CrashOffsetsProofs Persist.CrashReuseProofs Persist.CrashSafe Index.RecordCodec Index.RecordCodecProofs Run.R02.
+From BBS Require Persist.CrashRepeat Persist.CrashRepeatShadow Persist.CrashRepeatRec Persist.CrashRepeatSafe.
 Import ListNotations.
 Local Open Scope nat_scope.
 
@@ -145,19 +148,13 @@ Theorem restored_offsets_cover : forall g cfg t0 c, length (g_locs g) < 65536 ->
 Proof. exact CrashOffsetsProofs.restored_offsets_cover. Qed.
 Print Assumptions restored_offsets_cover.
 
-(** ---- no overwrite after restart ----
-    FULL STATEMENT (no_overwrite_after_restart): for a store restarted on the media of ANY crash of a
-    first life, no data write of the new life touches the bytes of a location that resolved at the
-    restart, until a state file without that block is durable.
-    Proved: (a) every data write of a life into a block restored at its start lies at or above the
-    restored write offset rounded up to a sector (any base medium); (b) for a second life started on
-    the crashed media of a first life: every data write into restored block i lies above the end of
-    every location that resolves to block i.  Missing: a write into a NEW block allocated on the
-    region of a restored block that was popped and released during the second life — covered by
-    the release discipline of the model ([release_regions]: a region returns to the free list only
-    when NotifyPersistentStateWritten ran, i.e. after the six directory operations of a state write
-    completed; proved for the first life as [region_reused_only_after_durable_state]) and by the
-    harness, not yet by a theorem for a life that starts on non-empty media. *)
+(** ---- no overwrite after restart: the two-life forms ----
+    (a) every data write of a life into a block restored at its start lies at or above the
+    restored write offset rounded up to a sector (any base medium); (b) for a second life started
+    on the crashed media of a first life: every data write into restored block i lies above the end
+    of every location that resolves to block i.  The full statement — including writes into a NEW
+    block allocated on the region of a restored block that was popped and released during the life,
+    and for the media of ANY history of lives — is [no_overwrite_after_restart] below. *)
 Theorem no_overwrite_after_restart_block : forall g cfg base t0 c, (0 < g_sector g)%Z ->
   creach g cfg base t0 c ->
   forall q k l lo hi, nth_error (cs_log c) q = Some (IoData k l lo hi) ->
@@ -209,19 +206,118 @@ Proof. intros g cfg t0 c H1 H2 R. exact (proj1 (CrashReuseProofs.regions_distinc
 Print Assumptions regions_partition.
 
 (** ---- repeated crashes ----
-    FULL STATEMENT (repeated_crash), NOT PROVED: for a predicate Safe on media (every record that
-    resolves at a restart on m satisfies (iii)+(iv) of [crash_safe] w.r.t. m's own data, and m's
-    state file lists distinct regions): Safe medium_empty, and
-       Safe base -> creach g cfg base t0 c -> Safe (crash_of base c n ch).
-    What is missing: the ghost upload identifiers ([r_up], the tag of [IoData]) are indices into
-    the upload table of ONE life, so the bytes of an object committed in an earlier life have no
-    name in the next life's statement; the invariants of CrashEpochProofs / CrashAllocProofs
-    ([cs_tbl] = the record writes of the log) are established by [cinit] for [medium_empty] only.
-    Proved for ANY base medium (hence after any number of earlier crashes, whatever they left):
-    [allocations_disjoint], [no_overwrite_after_restart_block] (every write of the new life into a
-    restored block lies at or above its restored write offset), [upload_writes_cover], and for two
-    lives [no_overwrite_after_restart_partial2].  Crashes during/after recovery are exercised by
-    the harness (nested experiments, 3 restarts deep) with the monitor and the model tie. *)
+    A HISTORY is a list of lives ([CrashRepeat.lives g H m]): the first starts on empty media, every
+    later one on the media left by the crash of its predecessor — ANY reachable state of that life,
+    ANY prefix of its I/O log, ANY loss choice; [m] = the media after the last crash.  So crashes
+    during recovery, right after a restart, before the first state write of a life … are included.
+    The upload tags of the model ([r_up], the tag of [IoData]) are indices into the upload table of
+    ONE life; across lives an upload is identified by (life, index): [CrashRepeatSafe.hist_data H]
+    is the data device as the history left it — the surviving data writes of every life, tagged with
+    the number of the life — and [towner … l z] the (life, upload) of the LAST surviving write that
+    covers byte [z] of region [l].
+
+    [repeated_crash]: after ANY number of crash + restart rounds, a record that resolves on the final
+    media designates a COMPLETED upload (life j, index k) of the record's key, offset and size, all
+    of whose data writes lay below the durable frontier of the log prefix at which life j crashed,
+    allocated in the very device region that the restarted list attaches to the resolved block,
+    below that block's restored write offset, and every byte of the location is owned by a write of
+    that upload — no surviving write of any other upload of any life covers it.
+    [repeated_crash_bytes]: the same on the medium's own data list ([byte_owner (m_data m)]).
+    Proof: the medium invariant [SafeF] holds for empty media and is closed under one life + crash
+    from ANY medium that satisfies it ([safe_medium_closed]); inside a life on such a medium every
+    record is native (a completed upload of this life, as in the first life) or inherited (an object
+    of a restored block, re-referenced by Robin-Hood moves), decided once per record
+    (Persist/CrashRepeatRec.v); the structural first-life invariants are transported by a step-by-step
+    simulation in which moves are replaced by writes of the finalizer's own record
+    (Persist/CrashRepeatSim.v, CrashRepeatShadow.v). *)
+Theorem repeated_crash : forall g H m,
+  length (g_locs g) < 65536 -> NoDup (g_locs g) -> (0 < g_sector g)%Z ->
+  CrashRepeat.lives g H m ->
+  forall slot r i, resolves g m slot r i ->
+  exists j lf k up b l,
+    nth_error H j = Some lf /\ nth_error (cs_ups (CrashRepeat.lf_c lf)) k = Some up /\
+    up_key up = r_key r /\ up_off up = r_off r /\ up_size up = r_size r /\
+    up_state up = UpFin true /\ up_issued up = up_size up /\
+    (forall q l' lo hi, nth_error (cs_log (CrashRepeat.lf_c lf)) q = Some (IoData k l' lo hi) ->
+       q < durable_upto (firstn (CrashRepeat.lf_n lf) (cs_log (CrashRepeat.lf_c lf)))) /\
+    nth_error (cs_locs (CrashRepeat.lf_c lf)) (up_abs up) = Some l /\
+    nth_error (blocks (fst (restart (geom g) (m_state m)))) i = Some b /\ b_loc b = l /\
+    (r_off r + r_size r <= b_written b)%Z /\
+    forall z, (r_off r <= z < r_off r + r_size r)%Z ->
+      CrashRepeatSafe.towner (CrashRepeatSafe.hist_data H) l z None = Some (j, k).
+Proof. exact CrashRepeatSafe.repeated_crash. Qed.
+Print Assumptions repeated_crash.
+
+(** the data list of the final medium is the history's data with the life tags erased, so on the
+    medium itself the last write covering each byte of the location carries that upload's tag *)
+Theorem repeated_crash_bytes : forall g H m,
+  length (g_locs g) < 65536 -> NoDup (g_locs g) -> (0 < g_sector g)%Z ->
+  CrashRepeat.lives g H m ->
+  forall slot r i, resolves g m slot r i ->
+  exists j lf k up b,
+    nth_error H j = Some lf /\ nth_error (cs_ups (CrashRepeat.lf_c lf)) k = Some up /\
+    up_key up = r_key r /\ up_off up = r_off r /\ up_size up = r_size r /\ up_state up = UpFin true /\
+    nth_error (blocks (fst (restart (geom g) (m_state m)))) i = Some b /\
+    nth_error (cs_locs (CrashRepeat.lf_c lf)) (up_abs up) = Some (b_loc b) /\
+    (r_off r + r_size r <= b_written b)%Z /\
+    forall z, (r_off r <= z < r_off r + r_size r)%Z -> byte_owner (m_data m) (b_loc b) z None = Some k.
+Proof. exact CrashRepeatSafe.repeated_crash_bytes. Qed.
+Print Assumptions repeated_crash_bytes.
+
+Theorem data_of_history : forall g H m, CrashRepeat.lives g H m ->
+  m_data m = map snd (CrashRepeatSafe.hist_data H).
+Proof. exact CrashRepeatSafe.lives_data. Qed.
+Print Assumptions data_of_history.
+
+(** the invariant: closed under a life of any length and a crash, from ANY medium that satisfies it
+    (the "one restart from any invariant-satisfying state" step; [repeated_crash] is its iteration) *)
+Theorem safe_medium_empty : forall g, CrashRepeatSafe.SafeF g [] medium_empty.
+Proof. exact CrashRepeatSafe.SafeF_empty. Qed.
+Theorem safe_medium_closed : forall g H base lf,
+  length (g_locs g) < 65536 -> NoDup (g_locs g) -> (0 < g_sector g)%Z ->
+  CrashRepeatSafe.SafeF g H base ->
+  creach g (CrashRepeat.lf_cfg lf) base (CrashRepeat.lf_t0 lf) (CrashRepeat.lf_c lf) ->
+  CrashRepeatSafe.SafeF g (H ++ [lf])
+    (crash_of base (CrashRepeat.lf_c lf) (CrashRepeat.lf_n lf) (CrashRepeat.lf_ch lf)).
+Proof. exact CrashRepeatSafe.SafeF_step. Qed.
+Print Assumptions safe_medium_closed.
+
+(** ---- no overwrite after restart, arbitrarily many lives ----
+    [base] = the media of ANY history; a life of any length on it: once a data write (position [q]
+    of its log) has touched a byte of a location that resolved at the restart, that record never
+    resolves again, at whatever later point the life crashes and whatever is lost — the write went
+    into a NEW block on the region, which the allocator handed out only after a state file without
+    the old block was durable (writes into the restored block itself start at or above its restored
+    write offset: [no_overwrite_after_restart_block]).  Equivalently: as long as the record can still
+    resolve after a crash, no upload accepted after the restart has written into its bytes. *)
+Theorem no_overwrite_after_restart : forall g H base cfg t0 c,
+  length (g_locs g) < 65536 -> NoDup (g_locs g) -> (0 < g_sector g)%Z ->
+  CrashRepeat.lives g H base -> creach g cfg base t0 c ->
+  forall slot r i b, resolves g base slot r i ->
+    nth_error (blocks (fst (restart (geom g) (m_state base)))) i = Some b ->
+  forall q k lo hi z, nth_error (cs_log c) q = Some (IoData k (b_loc b) lo hi) ->
+    (r_off r <= z < r_off r + r_size r)%Z -> (lo <= z < hi)%Z ->
+  forall n ch, q < n -> forall slot' i', ~ resolves g (crash_of base c n ch) slot' r i'.
+Proof. exact CrashRepeatSafe.no_overwrite_after_restart. Qed.
+Print Assumptions no_overwrite_after_restart.
+
+(** the region-reuse discipline and the partition of the device for a life on any medium whose state
+    file restores duplicate-free seeds and regions (in particular the media of any history) *)
+Theorem region_reused_only_after_durable_state_any_base : forall g cfg base t0 c,
+  length (g_locs g) < 65536 -> NoDup (g_locs g) -> CrashRepeatShadow.base_ok g base ->
+  creach g cfg base t0 c -> exists K, reuse_witness c K.
+Proof. exact CrashRepeatShadow.region_reuse_any_base. Qed.
+Print Assumptions region_reused_only_after_durable_state_any_base.
+
+(** what can be the state file after a crash of a life that started with files: the file it started
+    with (only while no directory fsync of the life completed) or the payload of a state write of the
+    prefix — never the left-over state.new, never torn or stale content *)
+Theorem state_file_survivor_any_base : forall (base : medium irec) (L : list (io irec)) ch x,
+  shaped L -> m_state (crash_medium base L ch) = Some x ->
+  (m_state base = Some x /\ dlw L = None) \/
+  exists pos, nth_error L pos = Some (IoWriteNew x) /\ forall lw, dlw L = Some lw -> lw <= pos.
+Proof. exact CrashRepeat.dir_survivor_any. Qed.
+Print Assumptions state_file_survivor_any_base.
 
 (** ---- non-vacuity: a concrete history (push a block, upload 20 bytes of key 5
     in two device writes, finalize + record in slot 3, one commit cycle of the
@@ -252,3 +348,42 @@ Proof. split; vm_compute; reflexivity. Qed.
 Example ex_data_durable :
   length (m_data (crash_of medium_empty ex_c 11 (mkChoice [] [] 0 1))) = 2.
 Proof. vm_compute. reflexivity. Qed.
+
+(** ---- non-vacuity, two lives: the first life of the example crashes after its commit cycle with
+    nothing lost; the second life (on those media) uploads 8 bytes of key 6 into the RESTORED block
+    (at the restored write offset 20 rounded up to a sector: 32), finalizes with a record in slot 4
+    and crashes before any state write, its data write surviving.  The record of the FIRST life
+    still resolves (through the state file the second life started with); byte 19 of the region is
+    owned by upload 0 of life 0, byte 32 by upload 0 of life 1 — on the raw medium both carry the
+    per-life tag 0, which is why uploads are identified by (life, index); the new record does not
+    resolve (its epoch is not in any state file). ---- *)
+Definition ex_m1 : medium irec := crash_of medium_empty ex_c 11 ex_all.
+Definition ex_tr2 : list cev :=
+  [CPutStart 0 6%N 8%Z; CData 0 8%Z; CWriterDone 0 true; CFinalize 0 2002%N [IwNew 4]].
+Definition ex_c2 : cst :=
+  match crun ex_g ex_cfg (cinit ex_g ex_m1 50) ex_tr2 with Some c => c | None => cinit ex_g ex_m1 50 end.
+Definition ex_lf1 : CrashRepeat.life := CrashRepeat.mkLife ex_cfg 0 ex_c 11 ex_all.
+Definition ex_lf2 : CrashRepeat.life := CrashRepeat.mkLife ex_cfg 50 ex_c2 2 ex_all.
+Definition ex_m2 : medium irec := crash_of ex_m1 ex_c2 2 ex_all.
+
+Example ex2_history : CrashRepeat.lives ex_g (([] ++ [ex_lf1]) ++ [ex_lf2])
+   (crash_of (crash_of medium_empty (CrashRepeat.lf_c ex_lf1) (CrashRepeat.lf_n ex_lf1) (CrashRepeat.lf_ch ex_lf1))
+             (CrashRepeat.lf_c ex_lf2) (CrashRepeat.lf_n ex_lf2) (CrashRepeat.lf_ch ex_lf2)).
+Proof.
+  apply CrashRepeat.lives_snoc.
+  - apply CrashRepeat.lives_snoc; [constructor|]. exists ex_tr. vm_compute. reflexivity.
+  - exists ex_tr2. vm_compute. reflexivity.
+Qed.
+Example ex2_second_life_wrote : length (cs_log ex_c2) = 2 /\ length (m_data ex_m2) = 3.
+Proof. split; vm_compute; reflexivity. Qed.
+Example ex2_old_record_resolves : resolves ex_g ex_m2 3 ex_rec 0.
+Proof. split; vm_compute; reflexivity. Qed.
+Example ex2_owners :
+  CrashRepeatSafe.towner (CrashRepeatSafe.hist_data [ex_lf1; ex_lf2]) (0, 64)%Z 19 None = Some (0, 0) /\
+  CrashRepeatSafe.towner (CrashRepeatSafe.hist_data [ex_lf1; ex_lf2]) (0, 64)%Z 32 None = Some (1, 0) /\
+  byte_owner (m_data ex_m2) (0, 64)%Z 19 None = Some 0 /\ byte_owner (m_data ex_m2) (0, 64)%Z 32 None = Some 0.
+Proof. repeat split; vm_compute; reflexivity. Qed.
+Example ex2_new_record_not_yet :
+  slot_get (m_index ex_m2) 4 None = Some (mkIrec 2 0 6 32 8 2002 0) /\
+  resolve_ref (fst (restart (geom ex_g) (m_state ex_m2))) 0 2 0 2002 = None.
+Proof. split; vm_compute; reflexivity. Qed.
